@@ -22,7 +22,7 @@ func faultKinds(full bool) []answer {
 		}
 	}
 	if full {
-		out = append(out, answer{Kind: "401"}, answer{Kind: "429", RA: "past"}, answer{Kind: "503", RA: "past"})
+		out = append(out, answer{Kind: "401"}, answer{Kind: "429", RA: "past"}, answer{Kind: "503", RA: "past"}, answer{Kind: "429", RA: "date90"})
 	}
 	return out
 }
@@ -79,6 +79,9 @@ func buildGroups(r *ev.Run) []*group {
 	// differ pairwise in one or two components
 	gs = append(gs, &group{Name: "route3", Ms: []int{1, 2, 3}, Compress: true, Dests: []string{"A", "B", "C"}, Sizes: []int{szSmall},
 		MaxEnq: 5, Wait: true, Scripts: noFault, Prefix: 2, Veto: noEnqAfterTime})
+	// ... three destinations that share exactly one component pairwise (host / API key / dataset)
+	gs = append(gs, &group{Name: "route3x", Ms: []int{1, 2, 3}, Compress: false, Dests: []string{"A", "E", "F"}, Sizes: []int{szSmall},
+		MaxEnq: 5, Wait: true, Scripts: noFault, Prefix: 2, Veto: noEnqAfterTime})
 	// ... and the pair that differs in the API key only
 	gs = append(gs, &group{Name: "route2", Ms: []int{1, 2, 3}, Compress: false, Dests: []string{"A", "D"}, Sizes: []int{szSmall},
 		MaxEnq: 5, Wait: true, Scripts: noFault, Prefix: 2, Veto: noEnqAfterTime})
@@ -93,11 +96,11 @@ func buildGroups(r *ev.Run) []*group {
 			return noEnqAfterTime(h, s) || (s.Op == "enq" && s.Dest == "B" && s.Size != szSmall)
 		}})
 	// 5 MB body limit: needs MaxBatchSize ≥ 5 (a batch of ≤ 3 events of ≤ 1 MB cannot reach it)
-	splitSizes := []int{szMax, szSmall}
+	splitSizes := []int{szMax, szSmall, szOver1}
 	splitScripts := [][]answer{{}, {{Kind: "timeout"}}, {ok, {Kind: "timeout"}}, {{Kind: "429"}}, {{Kind: "500"}}, {ok, {Kind: "short"}}}
 	if th {
-		splitSizes = []int{szMax, szAlmost, sz099, szSmall}
-		splitScripts = scripts(2, faultKindsReduced(), faultKindsReduced())
+		splitSizes = []int{szMax, szAlmost, szSmall, szOver1}
+		splitScripts = scripts(2, faultKindsReduced(), []answer{{Kind: "timeout"}, {Kind: "429", RA: ""}, {Kind: "503", RA: "59"}, {Kind: "500"}})
 	}
 	gs = append(gs, &group{Name: "split5MB", Ms: []int{5, 6}, Compress: false, Dests: []string{"A"}, Sizes: splitSizes,
 		MaxEnq: 6, Wait: true, Scripts: splitScripts, Prefix: 2,
@@ -105,11 +108,11 @@ func buildGroups(r *ev.Run) []*group {
 			if noEnqAfterTime(h, s) {
 				return true
 			}
-			if th || s.Op != "enq" || s.Size != szSmall {
+			if s.Op != "enq" || s.Size == szMax || (th && s.Size != szOver1) {
 				return false
 			}
-			for _, x := range h { // quick tier: at most one small event among the 1 MB ones
-				if x.Op == "enq" && x.Size == szSmall {
+			for _, x := range h { // at most one oversize event; quick tier: also at most one small event among the 1 MB ones
+				if x.Op == "enq" && x.Size == s.Size {
 					return true
 				}
 			}
@@ -118,9 +121,10 @@ func buildGroups(r *ev.Run) []*group {
 	// fault scripts: ≤ 3 answers, ≤ 2 faults
 	pairs := []answer{{Kind: "everr"}, {Kind: "500"}, {Kind: "timeout"}, {Kind: "429", RA: ""}, {Kind: "503", RA: "59"}, {Kind: "429", RA: "60"}}
 	if th {
-		pairs = faultKinds(true)
+		pairs = append(pairs, answer{Kind: "short"}, answer{Kind: "garbage"}, answer{Kind: "400"}, answer{Kind: "429", RA: "59"}, answer{Kind: "429", RA: "date"},
+			answer{Kind: "503", RA: ""}, answer{Kind: "503", RA: "0"}, answer{Kind: "503", RA: "60"}, answer{Kind: "503", RA: "date"}, answer{Kind: "429", RA: "past"})
 	}
 	gs = append(gs, &group{Name: "faults", Ms: []int{1, 2}, Compress: true, Dests: []string{"A", "B"}, Sizes: []int{szSmall},
-		MaxEnq: 3, MaxAdv: ev.Pick(r, 4, 7), Scripts: scripts(3, faultKinds(th), pairs), Prefix: 0})
+		MaxEnq: 3, MaxAdv: ev.Pick(r, 4, 6), Scripts: scripts(3, faultKinds(th), pairs), Prefix: 0})
 	return gs
 }
